@@ -1,5 +1,6 @@
 import Driver.Common
 import GM.Model.Render
+import GM.Spec.RenderInv
 namespace Driver
 open GM
 
@@ -125,6 +126,10 @@ def handleRender : List String → String
       | some .index => "panic:index"
       | some .assert => "panic:assert"
       | none => hexOfBytes (render rc t)
+    | _, _ => bad
+  | "inv" :: o :: e :: toks =>
+    match parseCfg o e, parseTree toks with
+    | some rc, some t => if GM.Spec.Inv rc t then "ok" else "fail:assumption:render-inv"
     | _, _ => bad
   | ["write", e, v] => hx v fun b => hexOfBytes (write (e == "1") b)
   | ["rawWrite", v] => hx v fun b => hexOfBytes (rawWrite b)
